@@ -783,6 +783,29 @@ func (x *exec) doGo(s *State, g *ssa.Go) {
 	case *ssa.MakeClosure:
 		fn = callee.Fn.(*ssa.Function)
 	}
+	// locals captured by reference are written by the goroutine at unknown
+	// times: from here on they hold arbitrary values after every call (the
+	// synchronisation that orders those writes, e.g. WaitGroup.Wait, is a call)
+	if mc, ok := cc.Value.(*ssa.MakeClosure); ok {
+		cfn, _ := mc.Fn.(*ssa.Function)
+		for bi, b := range mc.Bindings {
+			if cfn != nil && bi < len(cfn.FreeVars) && onlyLoaded(cfn, cfn.FreeVars[bi]) {
+				continue // the goroutine only reads this variable
+			}
+			if pv, ok := x.val(b, s).(PtrV); ok && pv.Kind == PCell && pv.Cell != nil {
+				dup := false
+				for _, c0 := range x.shared {
+					if c0 == pv.Cell {
+						dup = true
+					}
+				}
+				if !dup {
+					x.shared = append(x.shared, pv.Cell)
+				}
+			}
+		}
+		x.havocShared(s)
+	}
 	if fn == nil {
 		return
 	}
@@ -790,6 +813,30 @@ func (x *exec) doGo(s *State, g *ssa.Go) {
 	if blk, k2 := x.lookupContract(key); blk != nil {
 		// only the preconditions are checked at the spawn point
 		x.checkPre(s, blk, fn, args, g.Pos(), k2, fn.Signature)
+	}
+}
+
+// onlyLoaded: every use of the captured variable's address in the closure is a
+// plain load (so the closure cannot change it).
+func onlyLoaded(fn *ssa.Function, fv *ssa.FreeVar) bool {
+	refs := fv.Referrers()
+	if refs == nil {
+		return false
+	}
+	for _, r := range *refs {
+		u, ok := r.(*ssa.UnOp)
+		if !ok || u.Op != token.MUL || u.X != fv {
+			return false
+		}
+	}
+	return true
+}
+
+func (x *exec) havocShared(s *State) {
+	for _, cl := range x.shared {
+		if _, ok := s.cells[cl]; ok {
+			s.cells[cl] = x.e.fresh(cl.T, cl.Name+"~shared", s)
+		}
 	}
 }
 
